@@ -222,6 +222,25 @@ func fieldWrites(f *ssa.Function, T string) map[string][]string {
 	an.AllInstrs(f, func(in ssa.Instruction) {
 		switch x := in.(type) {
 		case *ssa.Store:
+			// the whole struct replaced by a constructor's result (*m = NewT()): each field is written with what
+			// the constructor puts there
+			if _, isFA := x.Addr.(*ssa.FieldAddr); !isFA && an.TypeName(x.Addr.Type()) == T {
+				if cl, ok := an.Strip(x.Val, false).(*ssa.Call); ok {
+					if sc := cl.Common().StaticCallee(); sc != nil && len(sc.Blocks) > 0 && sc != f && an.TypeName(sc.Signature.Results().At(0).Type()) == T {
+						inner := fieldWrites(sc, T)
+						if st := structOf(x.Addr.Type()); st != nil {
+							for i := 0; i < st.NumFields(); i++ {
+								fld := an.FieldName(x.Addr.Type(), st.Field(i).Name())
+								if len(inner[fld]) == 0 {
+									out[fld] = append(out[fld], "zero")
+								} else {
+									out[fld] = append(out[fld], inner[fld]...)
+								}
+							}
+						}
+					}
+				}
+			}
 			if fld, exact := rootField(x.Addr, 0); fld != "" {
 				if exact {
 					out[fld] = append(out[fld], valueClass(x.Val))
@@ -264,6 +283,14 @@ func fieldWrites(f *ssa.Function, T string) map[string][]string {
 		}
 	})
 	return out
+}
+
+func structOf(t types.Type) *types.Struct {
+	if p, ok := t.Underlying().(*types.Pointer); ok {
+		t = p.Elem()
+	}
+	st, _ := t.Underlying().(*types.Struct)
+	return st
 }
 
 func valueClass(v ssa.Value) string {
@@ -435,9 +462,9 @@ func checkCarrier(c *report.Ctx, cr carrier) {
 					}
 				case init == "zero" && v == "param":
 					// setter reached from the reset path with a constant argument: resolved by the caller-side check
-					match = resetSetterConst(c, cr, fld)
+					match = match || resetSetterConst(c, cr, fld)
 				case strings.HasPrefix(init, "const:") && v == "param":
-					match = resetSetterConst(c, cr, fld)
+					match = match || resetSetterConst(c, cr, fld)
 				}
 			}
 			if !match {
